@@ -123,6 +123,23 @@ impl IterKind {
 pub enum Fate {
     Drop,
     Forget,
+    /// the closure handed to a finishing consumer (`for_each`, ...) panics when
+    /// it receives its (k+1)-th item; the unwinding drops the iterator
+    Unwind(u8),
+}
+
+impl Fate {
+    pub fn to_text(self) -> String {
+        match self { Fate::Drop => "drop".into(), Fate::Forget => "forget".into(), Fate::Unwind(k) => format!("unwind:{}", k) }
+    }
+
+    pub fn from_text(s: &str) -> Option<Fate> {
+        Some(match s {
+            "drop" => Fate::Drop,
+            "forget" => Fate::Forget,
+            _ => Fate::Unwind(s.strip_prefix("unwind:")?.parse().ok()?),
+        })
+    }
 }
 
 /// How a walk continues after its explicit calls.
@@ -295,12 +312,42 @@ pub enum WalkOut<T> {
     /// item handed out by the finishing consumer
     Fin(T),
     Count(usize),
+    /// an injected panic came out of this explicit call and was caught
+    Panicked,
 }
 
 /// Drives any double-ended iterator through a plan. Generic, so that the
 /// very same calls are made on all seven iterator types.
-pub fn drive_walk<I: DoubleEndedIterator>(mut it: I, plan: &WalkPlan, forget: bool, mut sink: impl FnMut(WalkOut<I::Item>)) {
+pub fn drive_walk<I: DoubleEndedIterator>(it: I, plan: &WalkPlan, forget: bool, sink: impl FnMut(WalkOut<I::Item>)) {
+    drive_walk_opts(it, plan, forget, false, sink)
+}
+
+/// `catch_each`: an injected panic that comes out of an explicit call is caught
+/// there and the iterator stays in use (a caller may well do that).
+pub fn drive_walk_opts<I: DoubleEndedIterator>(mut it: I, plan: &WalkPlan, forget: bool, catch_each: bool, mut sink: impl FnMut(WalkOut<I::Item>)) {
     for c in &plan.calls {
+        if catch_each {
+            let r = std::panic::catch_unwind(std::panic::AssertUnwindSafe(|| match *c {
+                Call::Next => Some(it.next()),
+                Call::NextBack => Some(it.next_back()),
+                Call::Nth(k) => Some(it.nth(k as usize)),
+                Call::NthBack(k) => Some(it.nth_back(k as usize)),
+                Call::Hint => None,
+            }));
+            match r {
+                Ok(Some(x)) => sink(WalkOut::Item(x)),
+                Ok(None) => { let (lo, hi) = it.size_hint(); sink(WalkOut::Hint(lo, hi)); },
+                Err(p) => {
+                    if crate::tracked::panic_message(&*p).contains(crate::tracked::INJECTED) {
+                        sink(WalkOut::Panicked);
+                    }
+                    else {
+                        std::panic::resume_unwind(p);
+                    }
+                },
+            }
+            continue;
+        }
         match *c {
             Call::Next => sink(WalkOut::Item(it.next())),
             Call::NextBack => sink(WalkOut::Item(it.next_back())),
@@ -339,6 +386,10 @@ pub enum CloneMode {
     /// `target.clone_from(&cache)` into an existing, pre-filled cache with
     /// enough capacity; the result is judged like a clone and dropped
     From,
+    /// `clone()` called from a destructor that runs while the thread unwinds
+    /// from an unrelated panic (`thread::panicking()` is true throughout); the
+    /// clone is judged like any other and continued on
+    Unwinding,
 }
 
 #[derive(Clone, Debug, PartialEq, Eq, Hash)]
@@ -664,10 +715,9 @@ impl Op {
                 format!("try_reserve {} {}", arg.to_text(), if *fail_alloc { "refuse" } else { "ok" }),
             Op::ShrinkTo(a) => format!("shrink_to {}", a.to_text()),
             Op::IterWalk { kind, calls, rest, fate } =>
-                format!("iterwalk {} {} {} {}", kind.name(), calls_text(calls), rest.to_text(),
-                    match fate { Fate::Drop => "drop", Fate::Forget => "forget" }),
+                format!("iterwalk {} {} {} {}", kind.name(), calls_text(calls), rest.to_text(), fate.to_text()),
             Op::Clone(m) => format!("clone {}",
-                match m { CloneMode::Check => "check", CloneMode::Swap => "swap", CloneMode::Fork => "fork", CloneMode::From => "from" }),
+                match m { CloneMode::Check => "check", CloneMode::Swap => "swap", CloneMode::Fork => "fork", CloneMode::From => "from", CloneMode::Unwinding => "unwinding" }),
             Op::InsertMany { count, vheap } => format!("insert_many {} {}", count, vheap),
             Op::Churn { rounds, which } => format!("churn {} {}", rounds, which),
             Op::Side(n) => format!("side {}", n),
@@ -736,11 +786,12 @@ impl Op {
                 kind: IterKind::from_name(t.get(1)?)?,
                 calls: calls_from(t.get(2)?)?,
                 rest: Rest::from_text(t.get(3)?)?,
-                fate: match *t.get(4)? { "drop" => Fate::Drop, "forget" => Fate::Forget, _ => return None },
+                fate: Fate::from_text(t.get(4)?)?,
             },
             "clone" => Op::Clone(match *t.get(1)? {
                 "check" => CloneMode::Check, "swap" => CloneMode::Swap, "fork" => CloneMode::Fork,
                 "from" => CloneMode::From,
+                "unwinding" => CloneMode::Unwinding,
                 _ => return None,
             }),
             "insert_many" => Op::InsertMany { count: t.get(1)?.parse().ok()?, vheap: t.get(2)?.parse().ok()? },
@@ -1030,11 +1081,14 @@ fn dec_op(c: &mut Cursor) -> Option<Op> {
             let mut calls: Vec<Call> = (0..n).map(|i| if bits >> i & 1 == 1 { Call::NextBack } else { Call::Next }).collect();
             let rf = c.u8()?;
             let mut rest = match rf % 4 { 0 => Rest::Stop, 1 => Rest::Front, 2 => Rest::Back, _ => Rest::Alternate };
-            let fate = if (rf >> 2) % 3 == 0 { Fate::Forget } else { Fate::Drop };
+            let mut fate = if (rf >> 2) % 3 == 0 { Fate::Forget } else { Fate::Drop };
             if rf >= 128 {
                 // positional calls and finishing consumers
                 let x = c.u8()?;
                 let y = c.u8()?;
+                if x >= 192 {
+                    fate = Fate::Unwind((x >> 2) % 4);
+                }
                 if n > 0 && x % 4 != 0 {
                     let at = (x >> 2) as usize % n;
                     let back = matches!(calls[at], Call::NextBack);
@@ -1049,13 +1103,13 @@ fn dec_op(c: &mut Cursor) -> Option<Op> {
             Op::IterWalk { kind, calls, rest, fate }
         },
         24 => Op::Debug,
-        25 => Op::Clone(match c.u8()? % 4 { 0 => CloneMode::Check, 1 => CloneMode::Swap, 2 => CloneMode::Fork, _ => CloneMode::From }),
+        25 => Op::Clone(match c.u8()? % 5 { 0 => CloneMode::Check, 1 => CloneMode::Swap, 2 => CloneMode::Fork, 3 => CloneMode::From, _ => CloneMode::Unwinding }),
         26 => Op::Scalars,
         27 => Op::InsertMany { count: c.u8()? as u16, vheap: c.u8()? as u16 },
         28 => Op::Churn { rounds: c.u8()? as u16, which: c.u8()? % 3 },
         29 => Op::Side(c.u8()? % 3),
         _ => {
-            let cb = crate::tracked::CB_KINDS[(c.u8()? % 8) as usize];
+            let cb = crate::tracked::CB_KINDS[(c.u8()? % 11) as usize];
             let b = c.u8()?;
             Op::Inject { cb, nth: (b % 32) as u16 + 1, late: b >= 128 }
         },
@@ -1102,7 +1156,7 @@ fn enc_op(op: &Op, out: &mut Vec<u8>) {
             }
             out.extend_from_slice(&bits.to_le_bytes());
             let r = match rest { Rest::Front => 1, Rest::Back => 2, Rest::Alternate => 3, _ => 0 };
-            let f = match fate { Fate::Forget => 0, Fate::Drop => 1 };
+            let f = match fate { Fate::Forget => 0, _ => 1 };
             // the byte form keeps at most one positional call; richer walks
             // are approximated (the fuzzer mutates from there)
             let special = calls.iter().take(n).position(|c| !matches!(c, Call::Next | Call::NextBack));
@@ -1125,7 +1179,7 @@ fn enc_op(op: &Op, out: &mut Vec<u8>) {
             }
         },
         Op::Debug => out.push(24),
-        Op::Clone(m) => { out.push(25); out.push(match m { CloneMode::Check => 0, CloneMode::Swap => 1, CloneMode::Fork => 2, CloneMode::From => 3 }); },
+        Op::Clone(m) => { out.push(25); out.push(match m { CloneMode::Check => 0, CloneMode::Swap => 1, CloneMode::Fork => 2, CloneMode::From => 3, CloneMode::Unwinding => 4 }); },
         Op::Scalars => out.push(26),
         Op::InsertMany { count, vheap } => { out.push(27); out.push((*count).min(255) as u8); out.push((*vheap).min(255) as u8); },
         Op::Churn { rounds, which } => { out.push(28); out.push((*rounds).min(255) as u8); out.push(*which % 3); },
